@@ -125,7 +125,7 @@ func initSymIntrinsics() {
 			return mkConst(64, uint64(v))
 		},
 		"Yield":   func(m *Machine, c *frame, fn *ssa.Function, a []value) value { m.preemptPoint(); return nil },
-		"Quiesce": func(m *Machine, c *frame, fn *ssa.Function, a []value) value { m.quiesce(); return nil },
+		"Quiesce": func(m *Machine, c *frame, fn *ssa.Function, a []value) value { m.quiesce(); m.hbBarrier(); return nil },
 		// Blocked reports how many goroutines are blocked (after Quiesce: stuck forever unless woken by main)
 		"Blocked": func(m *Machine, c *frame, fn *ssa.Function, a []value) value {
 			n := 0
